@@ -43,6 +43,19 @@ pub fn run(bin: &Path, argv: &[String], hash_seed: u64, io: &Io) -> std::io::Res
         let _ = std::fs::remove_file(l);
         c.env("SIMSEAM_IO_LOG", l);
     }
+    // S5: no ASLR in children; the heap layout is skewed by a seeded amount instead
+    c.env("SIMSEAM_HEAP_SKEW", (hash_seed.wrapping_mul(0x9E37_79B9_7F4A_7C15) >> 7).to_string());
+    unsafe {
+        use std::os::unix::process::CommandExt;
+        c.pre_exec(|| {
+            extern "C" {
+                fn personality(persona: std::os::raw::c_ulong) -> std::os::raw::c_int;
+            }
+            const ADDR_NO_RANDOMIZE: std::os::raw::c_ulong = 0x0040000;
+            personality(ADDR_NO_RANDOMIZE);
+            Ok(())
+        });
+    }
     c.stdin(Stdio::null());
     match &io.stdout_file {
         Some(p) => {
